@@ -849,14 +849,18 @@ impl ImageHandler for SixelImageHandler {
         let height = (img.height() / 6) * 6;
         // sixel color chanel has a range [0,100] colors, we need to reduce it before
         // quantization, it will produce smaller or/and better palette for this color depth
-        let dimg = Image::from(img.view(..height, ..).map(|_, color| {
+        let reduce = |color: &RGBA| {
             let [red, green, blue, alpha] = color.to_rgba();
             let red = ((red as f32 / 2.55).round() * 2.55) as u8;
             let green = ((green as f32 / 2.55).round() * 2.55) as u8;
             let blue = ((blue as f32 / 2.55).round() * 2.55) as u8;
             RGBA::new(red, green, blue, alpha)
-        }));
-        let (palette, qimg) = match dimg.quantize(256, true, self.bg) {
+        };
+        let dimg = Image::from(img.view(..height, ..).map(|_, color| reduce(color)));
+        // background needs to be reduced the same way, otherwise transparent pixels
+        // would introduce a color that is not on the sixel color grid
+        let bg = self.bg.as_ref().map(reduce);
+        let (palette, qimg) = match dimg.quantize(256, true, bg) {
             None => return Ok(()),
             Some(qimg) => qimg,
         };
